@@ -1,6 +1,7 @@
 """C11 — histograms: count-conservation skeleton and sibling agreement (numeric bounds are not decided)."""
 from mq.util import *
 from mq.prov import Prov
+from mq.facts import CallSite
 from rules.c12 import controlling_switches, discr_def
 
 EXPL = ("R11.1 count flow: in each of the three observation-capture bodies every Observation arm records exactly once per observation "
@@ -212,7 +213,7 @@ def run(ctx):
     F = ctx.facts("dbg")
     SCALE_DOWN, SCALE_UP, CONFIG_FN = helper_roles(F)
     ctx.floor("R11.2", "scaling helpers and shared bucket configuration (by role)", len(SCALE_DOWN) + len(SCALE_UP) + len(CONFIG_FN), 3)
-    caps = [b for b in F.all_bodies(AG) if "histogram" in b.path and "::tests::" not in b.path and b.kind == "AssocFn" and
+    caps = [b for b in F.all_bodies(AG) if "histogram" in b.path and "::tests::" not in b.path and
             any(c.name == "record_many" and "AggregationStrategy" in (c.trait or "") for c in b.calls()) and
             any(c.name == "record" for c in b.calls())]
     # the same decoding written once as an iterator of (value, occurrences) pairs: a closure matching on Observation that yields
@@ -222,7 +223,36 @@ def run(ctx):
     for d in ydec:
         for cs in d["consumers"]:
             consumers.append((d, cs))
-    ctx.floor("R11.1", "observation-capture sites (decoding bodies + consumers of a shared decoder)", len(caps) + len(consumers), 3)
+    ctx.floor("R11.1", "observation-capture sites (decoding bodies + consumers of a shared decoder)", len(caps) + len(consumers), 1)
+    # every place that feeds a strategy is one of the examined forms (so that de-duplicating the capture copies, or adding one, cannot
+    # leave a feeding site unjudged): a capture body, a consumer of the shared decoder, or the trait's own `record` = `record_many(v, 1)`
+    examined = {b.def_ for b in caps} | {cs["body"].def_ for d, cs in consumers}
+    nfeed = 0
+    for b in F.all_bodies(AG):
+        if "::tests::" in b.path:
+            continue
+        feeds = [c for c in b.calls() if c.name in ("record", "record_many") and "AggregationStrategy" in (c.trait or "")]
+        if not feeds:
+            continue
+        nfeed += 1
+        if b.def_ in examined:
+            continue
+        is_default = b.name == "record" and not b.path.startswith("<") and "AggregationStrategy" in b.path
+        is_impl = bool(b.impl) and "AggregationStrategy" in (b.impl.get("trait") or "")
+        if is_default or is_impl:
+            pr_ = Prov(b)
+            for c in feeds:
+                if c.name != "record_many":
+                    continue
+                vo, co = pr_.operand(c.args[1]), (op_const(c.args[2]) or {})
+                ctx.check(any(x[0] == "arg" and x[1] == 2 for x in vo) and co.get("int") == 1, "R11.1", fnkey(b) + "#record-is-record_many(value, 1)", loc(b, c.bb),
+                          "`record(value)` does not forward to `record_many(value, 1)`: a scalar observation would be counted %s times" % co.get("int", "a computed number of"),
+                          "record(v) = record_many(v, 1)")
+            continue
+        ctx.bad("R11.1", fnkey(b) + "#feeding-site-of-unknown-form", loc(b, feeds[0].bb),
+                "this body feeds an aggregation strategy (%s) but is neither an observation-capture body (a match on the Observation variants recording "
+                "each arm) nor a consumer of the shared decoder: its count handling is not judged" % sorted({c.name for c in feeds}))
+    ctx.floor("R11.1", "bodies feeding an aggregation strategy", nfeed, 2)
     tables = {}
     want = {
         "Unsigned": (("record", "1(record)", (), "once"),),
@@ -274,7 +304,7 @@ def run(ctx):
         # drain hands its bucket snapshot to: all are read
         units = [b] + list(F.closures_of(b))
         for c_ in b.calls():
-            for hb in local_callee_bodies(F, c_):
+            for hb in local_callee_bodies(F, c_) + fn_item_args(F, c_):
                 if hb.crate == AG and "histogram" in hb.path and hb.kind == "Fn" and hb.name not in CONFIG_FN and hb not in units:
                     units += [hb] + list(F.closures_of(hb))
         # R11.4 every bucket is looked at: no adapter that ends or thins the iteration over the snapshot
@@ -343,14 +373,41 @@ def run(ctx):
     for b in rms:
         pr = Prov(b)
         adds = [c for c in b.calls() if c.name == "add" and c.def_.startswith("histogram::")]
-        sc = [c for c in b.calls() if c.name in SCALE_UP]
-        ok = len(adds) == 1 and len(sc) == 1
+
+        def scaled_params(body, op, depth=2):
+            """parameters p of `body` such that the operand is (an arithmetic adaptation of) SCALE_UP(p), directly or through a
+            private helper of the module; None when the operand is not a scaled value at all"""
+            pr_ = Prov(body)
+            got, scaled = set(), False
+            work_, seen_ = list(pr_.operand(op)), set()
+            while work_:
+                x = work_.pop()
+                if x[0] != "call" or x in seen_:
+                    continue
+                seen_.add(x)
+                cs_ = CallSite(body, x[1], body.term(x[1]))
+                if cs_.name in ("min", "max") and cs_.def_.startswith(("core::", "std::")) and cs_.args:
+                    work_ += list(pr_.operand(cs_.args[0]))      # clamping to the integer range is not a rescaling
+                    continue
+                if cs_.name in SCALE_UP:
+                    scaled = True
+                    got |= {y[1] for y in pr_.operand(cs_.args[0]) if y[0] == "arg" and not y[2]}
+                elif depth > 0:
+                    for hb in local_callee_bodies(F, cs_):
+                        if hb.crate != AG or "histogram" not in hb.path:
+                            continue
+                        sub = scaled_params(hb, {"copy": {"l": 0, "p": []}}, depth - 1)
+                        if sub is not None:
+                            scaled = True
+                            for p_ in sub:
+                                if p_ - 1 < len(cs_.args):
+                                    got |= {y[1] for y in pr_.operand(cs_.args[p_ - 1]) if y[0] == "arg" and not y[2]}
+            return got if scaled else None
         s = None
-        if ok:
-            vo = pr.operand(adds[0].args[1])
+        if len(adds) == 1:
+            sp = scaled_params(b, adds[0].args[1])
             co = pr.operand(adds[0].args[2])
-            s = (("call", sc[0].bb) in vo or any(x[0] == "call" for x in vo), any(x[0] == "arg" and x[1] == 3 for x in co) and not any(x[0] == "const" for x in co),
-                 any(x[0] == "arg" and x[1] == 2 for x in pr.operand(sc[0].args[0])))
+            s = (sp is not None, any(x[0] == "arg" and x[1] == 3 for x in co) and not any(x[0] == "const" for x in co), sp is not None and 2 in sp)
         rsum[b.path] = s
         ctx.check(s == (True, True, True), "R11.2", fnkey(b) + "#scaled-value-with-count", loc(b),
                   "record_many does not add scale_up(value) with the `count` parameter (value-scaled, count-passed, scales-the-parameter) = %s" % (s,))
@@ -372,7 +429,10 @@ def run(ctx):
                     o = pr.operand(rv["a"]) | pr.operand(rv["b"])
                     arith = sorted({x[1] for x in o if x[0] == "op" and x[1] in ("Sub", "Add", "Div", "Mul")} | {
                         (b.term(x[1]).get("callee") or {}).get("name") for x in o if x[0] == "call" and (b.term(x[1]).get("callee") or {}).get("name") in ("abs", "abs_sub", "round", "floor", "ceil", "trunc")})
-                    if rv["op"] == "Eq" and not arith:
+                    tg0 = {v: tb for v, tb in gt["targets"]}.get(0)
+                    # the count is bumped on the `equal` side: the true side of `==`, the false side of `!=`
+                    equal_side = gt["otherwise"] if rv["op"] == "Eq" else tg0
+                    if rv["op"] in ("Eq", "Ne") and not arith and yes == [equal_side]:
                         okm = True
                     else:
                         why = "merge decision is `%s` over %s" % (rv["op"], arith or "values")
